@@ -355,14 +355,16 @@ def plans_C03(g, tier):
         pre.append([tested(0)])                       # alone
         pre.append([allow(0), tested(1)])             # stacked over an older ALLOW_CALL
         pre.append([tested(0), allow(1, 'EQ')])       # under a newer ALLOW_CALL that claims argument 1 only
+        pre.append([g.create(0, g.shape(fn=F1, mk1='ANY', tform='RT'), obj=0, lo=1, hi=2), tested(1)])  # two stacked bounded expectations (both can saturate)
+        pre.append([tested(0, 'EQ')])                 # exact-value matcher: other arguments are no-match calls that name it
         if tier != 'quick':
-            pre.append([g.create(0, g.shape(fn=F1, mk1='ANY', tform='RT'), obj=0, lo=1, hi=2), tested(1)])  # two stacked bounded expectations
+            pre.append([g.create(0, g.shape(fn=F1, mk1='ANY', tform='RT'), obj=0, lo=0, hi=1), tested(1), g.create(2, g.shape(fn=F1, mk1='EQ', tform='RT'), obj=0, k1=1, lo=1, hi=1)])
     # RT_TIMES(lo > hi): with and without a preceding IN_SEQUENCE
     bad = [g.create(3, g.shape(fn=F1, mk1='ANY', tform='RT'), obj=0, lo=2, hi=1),
            g.create(3, g.shape(fn=F1, mk1='ANY', tform='RT', seqar=1), obj=0, lo=3, hi=0, s1=0),
            g.create(3, g.shape(fn=F1, mk1='ANY', tform='RT', seqar=2, clauses='QTA'), obj=0, lo=1, hi=0, s1=0, s2=1)]
     seqd = g.create(2, g.shape(fn=G1, mk1='ANY', tform='RT', seqar=1), obj=0, lo=1, hi=1, s1=0)
-    alpha = [g.call(0, F1, 1), g.call(0, F1, 2), g.release(0), g.release(1)] + bad + [seqd, g.call(0, G1, 1), g.op(OP_DESTROY_SEQ, s1=0)]
+    alpha = [g.call(0, F1, 1), g.call(0, F1, 2), g.release(0), g.release(1)] + bad + [seqd, g.call(0, G1, 1), g.op(OP_DESTROY_SEQ, s1=0), g.op(OP_DESTROY_MOCK, obj=0)]
     return [dict(name='bounds', mask=M_C03, du=0, dm=6 if tier == 'quick' else 8, alphabet=alpha, prefixes=pre)]
 
 
@@ -407,8 +409,11 @@ def c07_alphabet(g, slots):
         A.append(g.create(slot, g.shape(fn=F1, mk1='NE', tform='RT'), obj=0, k1=1, lo=0, hi=0))
         A.append(g.create(slot, g.shape(fn=F1, mk1='EQ', tform='RT', nse=1), obj=0, k1=2, lo=1, hi=1))
         A.append(g.create(slot, g.shape(fn=F2, mk1='EQ', mk2='ANY', tform='FORBID'), obj=0, k1=1))
+        # sequenced allowing expectations: a callable-but-not-first-in-line newer expectation must not take a call from an older forbid
+        A.append(g.create(slot, g.shape(fn=G1, mk1='ANY', tform='RT', seqar=1), obj=0, lo=1, hi=INF, s1=0))
+        A.append(g.create(slot, g.shape(fn=F1, mk1='ANY', tform='RT', seqar=1, nse=1), obj=0, lo=0, hi=INF, s1=0))
         A.append(g.release(slot))
-    A += [g.call(0, F1, a) for a in (0, 1, 2)] + [g.call(0, F2, 1, 2), g.call(0, F2, 0, 2)]
+    A += [g.call(0, F1, a) for a in (0, 1, 2)] + [g.call(0, F2, 1, 2), g.call(0, F2, 0, 2), g.call(0, G1, 1)]
     return A
 
 
@@ -480,7 +485,7 @@ def c13_alphabet(g, slots, nw):
             A.append(g.monitor(slot, g.shape(mock='W', seqar=1), w=w, s1=0))
         A.append(g.release(slot))
     for (a, b) in [(0, 2), (1, 2)] if nw > 2 else [(0, 1)]:
-        A += [g.op(OP_COPY_WATCHED, obj=a, k1=b), g.op(OP_MOVECONS_WATCHED, obj=a, k1=b)]
+        A += [g.op(OP_COPY_WATCHED, obj=a, k1=b), g.op(OP_COPY_WATCHED, obj=a, k1=b, k2=1), g.op(OP_MOVECONS_WATCHED, obj=a, k1=b)]
     for (a, b) in ([(0, 1), (1, 0), (0, 2), (2, 0)] if nw > 2 else [(0, 1), (1, 0)]):
         A += [g.op(OP_ASSIGN_WATCHED, obj=a, k1=b), g.op(OP_MOVEASSIGN_WATCHED, obj=a, k1=b)]
     return A
@@ -494,7 +499,7 @@ def plans_C13(g, tier):
 
 
 # ---------------------------------------------------------------- C14
-M_C14 = F_KIND | F_HANDLER | F_QEXP | F_QSEQ | F_REPCOUNT
+M_C14 = F_KIND | F_HANDLER | F_QEXP | F_QSEQ | F_REPCOUNT | F_REPCULPRIT | F_REPDETAIL
 
 
 def plans_C14(g, tier):
